@@ -671,6 +671,33 @@ func engineValidate(ctx *Ctx) {
 	for i, n := 0, ctx.N(8000, 400000); i < n; i++ {
 		c14CheckQuery(ctx, "invalid-heavy", i, c14InvalidHeavy(r, a))
 	}
+	// words separated by long runs of whitespace / control characters (a pasted column, a here-document): runs of every length
+	// class from a few to almost the whole 1000 bytes, at the front, between words and at the end
+	for i, n := 0, ctx.N(16000, 400000); i < n; i++ {
+		var b strings.Builder
+		nw := 1 + r.Intn(3)
+		for w := 0; w <= nw; w++ {
+			run := []int{0, 1, 2, 7, 64, 255, 256, 257, 258, 300, 511, 512, 513, 700, 990}[r.Intn(15)]
+			if w > 0 && w < nw && run == 0 {
+				run = 1
+			}
+			one := r.Intn(3) == 0
+			sym := c14Pick(r, a.CtrlSpace)
+			for k := 0; k < run && b.Len() < 1100; k++ {
+				if !one {
+					sym = c14Pick(r, a.CtrlSpace)
+				}
+				if r.Intn(3) > 0 {
+					sym = " "
+				}
+				b.WriteString(sym)
+			}
+			if w < nw {
+				b.WriteString(c14Pick(r, []string{"git", "a", "commit", "\u00e9t\u00e9", "x-y", "7"}))
+			}
+		}
+		c14CheckQuery(ctx, "long-whitespace-runs", i, b.String())
+	}
 	c14Concurrent(ctx, r, a)
 }
 
@@ -785,7 +812,10 @@ func c14CLIArg(r *rand.Rand, a c14Alpha, k int) string {
 		return c14NoNUL(b.String())
 	case 4: // boundary length
 		L := 999 + r.Intn(3)
-		last := c14Pick(r, []string{"a", "\u00e9", "\u65e5", "\U0001F600", " ", "\t"})
+		last := c14Pick(r, []string{"a", "\u00e9", "\u65e5", "\U0001F600", " ", "\t", "\n", "\r\n", "\n\n\n\n\n\n\n\n\n", "\r"})
+		if strings.ContainsAny(last, "\r\n") && r.Intn(2) == 0 {
+			L = 1001 + r.Intn(12) // over the bound only by what trails it
+		}
 		var b strings.Builder
 		for b.Len() < L {
 			b.WriteString(word() + " ")
